@@ -289,7 +289,7 @@ func (x *Exec) loopEntry(fr *Frame, st *State, lp *loop, prev *ssa.BasicBlock) {
 			t := ev.evalBool(inv.Text)
 			props := inv.Props
 			if len(props) == 0 {
-				props = x.c.Props
+				props = x.safetyProps()
 			}
 			x.obligeX(st, "invariant-init", inv.Name()+"-init", props, t, "loop invariant holds on entry: "+inv.Text, posStr(x.prog.fset, blockPosT(b)), inv.MustFail, false)
 		}
@@ -414,13 +414,13 @@ func (x *Exec) loopBackEdge(fr *Frame, st *State, lp *loop, prev *ssa.BasicBlock
 		t := ev.evalBool(inv.Text)
 		props := inv.Props
 		if len(props) == 0 {
-			props = x.c.Props
+			props = x.safetyProps()
 		}
 		x.obligeX(st, "invariant-step", inv.Name()+"-step", props, t, "loop invariant preserved: "+inv.Text, posStr(x.prog.fset, blockPosT(b)), inv.MustFail, false)
 	}
 	if ls.ModSet && fr.heads[b.Index] != nil {
 		hev := &specEnv{x: x, st: fr.heads[b.Index], old: x.entry, vars: x.params, fr: fr.headFr, at: b, c: x.c}
-		x.frameCheckAgainst(st, fr.heads[b.Index], ls.Modifies, hev, fmt.Sprintf("loop%d-frame", lp.ord), x.c.Props)
+		x.frameCheckAgainst(st, fr.heads[b.Index], ls.Modifies, hev, fmt.Sprintf("loop%d-frame", lp.ord), x.safetyProps())
 	}
 	if ls.Decreases != nil {
 		old := fr.variants[b.Index]
@@ -433,7 +433,7 @@ func (x *Exec) loopBackEdge(fr *Frame, st *State, lp *loop, prev *ssa.BasicBlock
 		}
 		props := ls.Decreases.Props
 		if len(props) == 0 {
-			props = x.c.Props
+			props = x.safetyProps()
 		}
 		x.oblige(st, "decreases", fmt.Sprintf("loop%d-decreases", lp.ord), props, g, "variant decreases and is bounded below: "+ls.Decreases.Text, posStr(x.prog.fset, blockPosT(b)))
 	}
